@@ -24,7 +24,9 @@ def _conv(draw):
     H = draw(st.integers(max(1, kh - 2 * ph), 7))
     W = draw(st.integers(max(1, kw - 2 * pw), 7))
     return {'kind': 'conv', 'cin': draw(st.integers(1, 4)), 'cout': draw(st.integers(1, 4)), 'k': [kh, kw], 's': [sh, sw],
-            'p': [ph, pw], 'H': H, 'W': W, 'N': draw(st.integers(1, 4)), 'bias': draw(st.booleans()),
+            'p': [ph, pw], 'H': H, 'W': W,
+            # mostly tiny batches; sometimes batches beyond typical chunk sizes that are not multiples of them (65, 100, 130, 257)
+            'N': draw(st.one_of(st.integers(1, 4), st.integers(1, 4), st.integers(1, 4), st.sampled_from([33, 65, 100, 130, 257]))), 'bias': draw(st.booleans()),
             'seed': draw(st.integers(0, 2 ** 20)), 'int_args': draw(st.booleans()),
             'permuted': draw(st.sampled_from([False, False, True])),
             # the module itself converted to channels_last (weights and therefore weight gradients in NHWC storage)
@@ -49,7 +51,7 @@ class C15(Prop):
     id = 'C15'
     title = 'Layer helpers keep factors, gradients and weights in one consistent layout'
     rule = ('Hypothesis draws conv2d geometries (Cin,Cout 1-4, kernel 1-3 x 1-3, stride 1-3 x 1-3, zero padding 0-2 x 0-2, input '
-            '1-7 x 1-7 incl. sizes not divisible by the stride, batch 1-4, bias on/off, int or tuple arguments) and linear layers (in 1-6, '
+            '1-7 x 1-7 incl. sizes not divisible by the stride, batch 1-4 or one of 33/65/100/130/257, bias on/off, int or tuple arguments) and linear layers (in 1-6, '
             'out 1-5, bias on/off, input rank 2-5), inputs contiguous or dense non-contiguous (channels_last / transposed storage), conv modules optionally converted to channels_last (NHWC weight gradients); float64 data is a function of a drawn seed. Oracles: (a) get_grad() after a real '
             'forward/backward equals sum over samples and positions of g (x) [patch|1] with patches from torch.nn.functional.unfold; '
             '(b) _extract_patches == reshaped F.unfold (exact), input left unmodified; (c) set_grad(M); get_grad() == M (exact) and '
@@ -60,8 +62,8 @@ class C15(Prop):
                    'float64 helper-level comparison with relative tolerance 1e-10 (the operations differ only in summation order)']
     examples = {'quick': 600, 'thorough': 3000}
     shards = {'quick': 2, 'thorough': 16}
-    required_labels = {'quick': ['kind=conv', 'kind=linear', 'nontrivial=True', 'asym_pad=True', 'nondivisible=True', 'permuted=True', 'weight_cl=True'],
-                       'thorough': ['kind=conv', 'kind=linear', 'nontrivial=True', 'asym_pad=True', 'nondivisible=True', 'permuted=True', 'weight_cl=True']}
+    required_labels = {'quick': ['kind=conv', 'kind=linear', 'nontrivial=True', 'asym_pad=True', 'nondivisible=True', 'permuted=True', 'weight_cl=True', 'large_batch=True'],
+                       'thorough': ['kind=conv', 'kind=linear', 'nontrivial=True', 'asym_pad=True', 'nondivisible=True', 'permuted=True', 'weight_cl=True', 'large_batch=True']}
 
     def strategy(self, tier):
         return st.one_of(_conv(), _conv(), _linear())
@@ -164,7 +166,7 @@ class C15(Prop):
         nondiv = ((c['H'] + 2 * p[0] - k[0]) % s[0] != 0) or ((c['W'] + 2 * p[1] - k[1]) % s[1] != 0)
         labels = {'kind': 'conv', 'bias': c['bias'], 'asym_pad': p[0] != p[1], 'asym_stride': s[0] != s[1],
                   'asym_kernel': k[0] != k[1], 'nondivisible': nondiv, 'permuted': bool(c.get('permuted')),
-                  'weight_cl': bool(c.get('weight_cl')) and c['cin'] > 1 and max(k) > 1}
+                  'weight_cl': bool(c.get('weight_cl')) and c['cin'] > 1 and max(k) > 1, 'large_batch': c['N'] > 64}
         nt = (max(k) > 1 and c['cin'] >= 2) or p[0] != p[1] or s[0] != s[1] or k[0] != k[1]
         return self._common(helper, module, x, rows, lambda R: R.reshape(c['N'], c['cout'], L).transpose(1, 2).reshape(-1, c['cout']),
                             labels, nt, 1.0 / L, 1.0 / L)
